@@ -259,7 +259,11 @@ CHECKS["C10"] = {
     "runs": [{"name": "run.cli.fmp4.times", "files": CLIP, "fn": "VerifH_C10_fmp4", "workers": 16, "params": {"DATETIME": 0}, "params_quick": {"MAXSEGS": 1, "MAXFRAGS": 2, "MAXSAMPLES": 2},
               "params_thorough": {"MAXSEGS": 2, "MAXFRAGS": 2, "MAXSAMPLES": 2}, "reach": ["ran"], "budget_quick": 600, "budget_thorough": 7200, "qtimeout": 60000},
              {"name": "run.cli.fmp4.abstime", "files": CLIP, "fn": "VerifH_C10_fmp4", "workers": 16, "params": {"DATETIME": 1}, "params_quick": {"MAXSEGS": 1, "MAXFRAGS": 1, "MAXSAMPLES": 2, "DTBASEBITS": 24},
-              "params_thorough": {"MAXSEGS": 2, "MAXFRAGS": 1, "MAXSAMPLES": 2, "DTBASEBITS": 32}, "reach": ["ran"], "budget_quick": 600, "budget_thorough": 7200, "qtimeout": 60000}],
+              "params_thorough": {"MAXSEGS": 1, "MAXFRAGS": 2, "MAXSAMPLES": 2, "DTBASEBITS": 32}, "reach": ["ran"], "budget_quick": 600, "budget_thorough": 7200, "qtimeout": 60000},
+             # two segments with PROGRAM-DATE-TIME: the anchor of the second segment is not the origin (small ranges keep the rate conversions decidable)
+             {"name": "run.cli.fmp4.abstime.2segs", "files": CLIP, "fn": "VerifH_C10_fmp4", "workers": 16, "params": {"DATETIME": 1, "MAXSEGS": 2, "MAXFRAGS": 1},
+              "params_quick": {"MAXSAMPLES": 1, "DTBASEBITS": 12, "VDURBITS": 10, "ADURBITS": 10}, "params_thorough": {"MAXSAMPLES": 2, "DTBASEBITS": 16, "VDURBITS": 12, "ADURBITS": 12},
+              "reach": ["ran"], "budget_quick": 600, "budget_thorough": 7200, "qtimeout": 60000}],
 }
 CHECKS["C10"]["runs"].append({"name": "run.cli.fmp4.codecs", "files": CLIP, "fn": "VerifH_C10_fmp4", "workers": 16, "params": {"DATETIME": 0, "CODECS": 1},
                               "params_quick": {"MAXSEGS": 1, "MAXFRAGS": 2, "MAXSAMPLES": 2}, "params_thorough": {"MAXSEGS": 2, "MAXFRAGS": 2, "MAXSAMPLES": 2},
@@ -396,6 +400,16 @@ CHECKS["C19"]["runs"][0]["params_quick"] = {"TABLE": 19}
 CHECKS["C18"]["runs"] = CHECKS["C18"]["runs"] + [
     {"name": "run.mux.initfail", "files": [G + "c18_initfail.go", G + "c06_reload.go"] + MUX, "fn": "VerifH_C18_initfail", "workers": 16, "params": {"DISK": 1},
      "params_quick": {"K": 9}, "params_thorough": {"K": 12}, "reach": ["write-failed", "end"]}]
+
+# SegmentCount above the Low-Latency minimum (7): URI numbers vs media sequence numbers, expiry bound of blocking reloads
+LLSEG9 = _mx("run.mux.ll.segcount9", 3, 0, 3, 4, _STD, VKINDS=2, SEGCOUNT=9)
+CHECKS["C04"]["runs"] = CHECKS["C04"]["runs"] + [LLSEG9]
+CHECKS["C18"]["runs"] = CHECKS["C18"]["runs"] + [LLSEG9]
+CHECKS["C06"]["runs"] = CHECKS["C06"]["runs"] + [
+    {"name": "conc.reload.segcount12", "files": C06F, "fn": "VerifH_C06_reload", "workers": 16, "params": {"SEGCOUNT": 12}, "params_quick": {"K": 3}, "params_thorough": {"K": 4},
+     "reach": ["answered", "blocked", "end"], "budget_quick": 900, "budget_thorough": 7200, "replay_timeout": 120}]
+# the client half of C09 under a sliding live window (assertions carry C11's label)
+CHECKS["C09"]["runs"] = CHECKS["C09"]["runs"] + [dict([r for r in CHECKS["C11"]["runs"] if r["name"] == "run.cli.traditional"][0], name="client.traditional", prop="C11")]
 
 WSTEP = {"name": "step.window", "files": [G + "c04_step.go"] + MUX, "fn": "VerifH_C04_step", "workers": 16, "params_quick": {"MAXMSN": 99999}, "params_thorough": {"MAXMSN": 1073741824},
          "reach": ["rotated", "evicted", "end"], "budget_quick": 900, "budget_thorough": 7200, "qtimeout": 60000}
